@@ -60,7 +60,11 @@ func c16ECIES(t *rapid.T, ev *evProp) {
 	msg := genPlain(t, 4096, []int{0, 1, 15, 16, 17, 31, 32, 33, 64, 1000, 4096})
 	ctx := fmt.Sprintf("ecies group=%s hash=%s |msg|=%d", gi.Name, hname, len(msg))
 	key := func(w string) string { return "C16/ecies/" + gi.Name + "/" + w }
-	ct, err := ecies.Encrypt(g, X, msg, h)
+	gmsg, msgIntact := guard(msg)
+	ct, err := ecies.Encrypt(g, X, gmsg, h)
+	if why := msgIntact(); why != "" {
+		violationOrKnown(t, ev, key("input-overwritten"), "ecies.Encrypt wrote into its caller's memory: %s\n%s", why, ctx)
+	}
 	if err != nil {
 		violationOrKnown(t, ev, key("encrypt"), "Encrypt failed: %v\n%s", err, ctx)
 		return
@@ -344,7 +348,11 @@ func c16Anon(t *rapid.T, ev *evProp) {
 	msg := genPlain(t, 600, []int{0, 1, 15, 16, 17, 32, 64, 600})
 	ctx := fmt.Sprintf("anon-enc suite=%s n=%d mine=%d |msg|=%d", name, n, mine, len(msg))
 	key := func(w string) string { return "C16/anon/" + name + "/" + w }
-	ct, err := anon.Encrypt(suite, msg, set)
+	gmsg, msgIntact := guard(msg)
+	ct, err := anon.Encrypt(suite, gmsg, set)
+	if why := msgIntact(); why != "" {
+		violationOrKnown(t, ev, key("input-overwritten"), "anon.Encrypt wrote into its caller's memory: %s\n%s", why, ctx)
+	}
 	if err != nil {
 		violationOrKnown(t, ev, key("encrypt"), "Encrypt failed: %v\n%s", err, ctx)
 		return
